@@ -218,6 +218,11 @@ func H_C04_int() {
 	res, err := idx.NewSearch().WithFilters(f).Execute()
 	vAssert(err == nil, "search-ok")
 	vCheckIDs(res, docs, func(d *vDoc) bool { r, _ := vEval(d, f); return r }, "int")
+	// searches are read-only
+	g := Exists("i")
+	res2, err2 := idx.NewSearch().WithFilters(g).Execute()
+	vAssert(err2 == nil, "followup-ok")
+	vCheckIDs(res2, docs, func(d *vDoc) bool { r, _ := vEval(d, g); return r }, "followup-after-search")
 	vCover("ran")
 }
 
